@@ -32,9 +32,9 @@ def specials_512(rng):
                 s.add(v)
     s |= {2**512 - 1, L * L, L * L - 1, L * (2**256 - 1), (L - 1) << 256, L << 256, (2**256 - 1) << 256, 2**256 - 1,
           (2**260) % (2**512), 2**260 * L, int("ff" * 32 + "00" * 32, 16)}
-    for k in range(400):                       # low 260 bits just below 2^260, high part large: the reducer's input bound
-        lo = 2**260 - 1 - rng.getrandbits(rng.choice([8, 64, 200, 250]))
-        hi = rng.choice([2**252 - 1 - rng.getrandbits(200), rng.getrandbits(252), 2**252 - 1])
+    for k in range(4000):                      # low 260 bits just below 2^260, high part large: the reducer's input bound
+        lo = 2**260 - 1 - rng.getrandbits(rng.choice([8, 64, 200, 250, 251]))
+        hi = rng.choice([2**252 - 1 - rng.getrandbits(rng.choice([8, 100, 200, 250])), rng.getrandbits(252), 2**252 - 1])
         s.add((hi << 260) | lo)
     for k in range(20):
         s.add(rng.getrandbits(256))            # high half zero
